@@ -60,6 +60,34 @@ def main():
             bad += 0 if ok else 1
             results.append({"case": meta["id"], "kind": "seed", "property": p, "outcome": "detected" if ok else "MISSED", "keys": got[p][:3]})
             print("%s seed %-8s %s -> %s" % ("ok   " if ok else "FAIL ", meta["id"], p, (got[p] or ["(silent)"])[0][:120]))
+    # positive controls: one small edit per rule, the named rule must report
+    for patch in sorted(glob.glob(os.path.join(VERIF, "selftest", "mutants", "*.patch"))):
+        name = os.path.basename(patch)[:-6]
+        spec = json.load(open(patch[:-6] + ".json"))
+        props = [p for p in spec["expect"] if only is None or p == only]
+        if not props:
+            continue
+        d = scratch_copy()
+        ev = tempfile.mkdtemp(prefix="ipcv-selftest-ev-")
+        try:
+            r = subprocess.run(["patch", "-p1", "-s", "-i", patch], cwd=d, capture_output=True, text=True)
+            if r.returncode != 0:
+                results.append({"case": name, "kind": "control", "outcome": "skipped", "why": "patch does not apply"})
+                print("SKIP  control %-34s patch does not apply (the tree changed)" % name)
+                continue
+            env = dict(os.environ, IPCV_REPO=d, IPCV_EVIDENCE_DIR=ev)
+            for p in props:
+                rr = subprocess.run([os.path.join(VERIF, "check"), p], capture_output=True, text=True, env=env)
+                rules = set(re.findall(r"^VIOLATION property=\S+ replay=\S+ rule=(\S+)", rr.stdout, re.M))
+                compile_err = bool(re.search(r"configuration \S+ does not compile|default configuration does not compile", rr.stdout))
+                want = set(spec["expect"][p])
+                ok = want <= rules and not compile_err
+                bad += 0 if ok else 1
+                results.append({"case": name, "kind": "control", "property": p, "outcome": "detected" if ok else ("DOES-NOT-COMPILE" if compile_err else "MISSED"), "rules": sorted(rules)})
+                print("%s control %-34s %s want %s got %s%s" % ("ok   " if ok else "FAIL ", name, p, sorted(want), sorted(rules), " (mutant does not compile)" if compile_err else ""))
+        finally:
+            shutil.rmtree(d, ignore_errors=True)
+            shutil.rmtree(ev, ignore_errors=True)
     for patch in sorted(glob.glob(os.path.join(VERIF, "selftest", "refactors", "*.patch"))):
         name = os.path.basename(patch)[:-6]
         desc = open(patch[:-6] + ".txt").read().strip()
